@@ -492,17 +492,35 @@ pub fn vmap_into_collect<T, U, F: Fn(T) -> U>(f: F, xs: Vec<T>) -> (r: Vec<U>)
 { unimplemented!() }
 
 // ---- update_files: callees not under contract, derives ------------------------------------------------------------
-/// `sos_external_files::FileStorageDiff<'a>` (types.rs:37) — real shape
-pub struct FileStorageDiff<'a> { pub deleted: Vec<&'a Secret>, pub unchanged: Vec<&'a Secret> }
-/// file_manager.rs:614 `get_file_secret_diff` (not under contract: `iter().find(|other| field.secret() == other.secret())` needs
-/// `PartialEq for Secret`): which external files of the old secret are gone, which of the new one are unchanged.
-/// The answer is a FUNCTION of the two secrets (it reads nothing else): `diff_unchanged` names it.
-pub uninterp spec fn diff_unchanged(old_secret: Secret, new_secret: Secret) -> Seq<Secret>;
-#[verifier::external_body]
-pub fn get_file_secret_diff<'a>(old_secret: &'a Secret, new_secret: &'a Secret) -> (r: FileStorageDiff<'a>)
-    ensures r.unchanged@.len() == diff_unchanged(*old_secret, *new_secret).len(),
-        forall|i: int| 0 <= i < r.unchanged@.len() ==> *(#[trigger] r.unchanged@[i]) == diff_unchanged(*old_secret, *new_secret)[i],
-{ unimplemented!() }
+// ---- equality as the real `PartialEq` impls compute it (used by get_file_secret_diff) -------------------------------
+/// `impl PartialEq for Secret` (crates/vault/src/secret.rs:1797, read): per variant, every field compared — `File`:
+/// `content_a == content_b && user_data_a == user_data_b` with `impl PartialEq for FileContent` (:919: name, mime, checksum,
+/// size, path) and the derived `PartialEq` of UserData (fields, comment, recovery_note; a field row: id, meta, secret;
+/// `impl PartialEq for SecretMeta` :363 compares kind, label, urn only).  The stand-in enum collapses 15 variants, so the
+/// relation is named, not spelled out; nothing but its name is used (no reflexivity, no relation to `==`).
+pub uninterp spec fn secret_eq(a: Secret, b: Secret) -> bool;
+impl PartialEq for Secret {
+    #[verifier::external_body]
+    fn eq(&self, other: &Self) -> (r: bool)
+        ensures r == secret_eq(*self, *other),
+    { unimplemented!() }
+}
+impl vstd::std_specs::cmp::PartialEqSpecImpl for Secret {
+    open spec fn obeys_eq_spec() -> bool { true }
+    open spec fn eq_spec(&self, other: &Secret) -> bool { secret_eq(*self, *other) }
+}
+/// `impl PartialEq for SecretMeta` (secret.rs:363): kind, label and urn
+pub uninterp spec fn meta_eq(a: SecretMetaV, b: SecretMetaV) -> bool;
+impl PartialEq for SecretMeta {
+    #[verifier::external_body]
+    fn eq(&self, other: &Self) -> (r: bool)
+        ensures r == meta_eq(self@, other@),
+    { unimplemented!() }
+}
+impl vstd::std_specs::cmp::PartialEqSpecImpl for SecretMeta {
+    open spec fn obeys_eq_spec() -> bool { true }
+    open spec fn eq_spec(&self, other: &SecretMeta) -> bool { meta_eq(self@, other@) }
+}
 impl Summary {
     /// all fields of the summary (version, id, name, cipher, kdf, flags): what the derived `PartialEq` compares
     pub uninterp spec fn all_fields(&self) -> Seq<u8>;
